@@ -182,3 +182,137 @@ def corpus(prop: str, repo: str, jobs: int = 16) -> dict:
         "variants": [{k: r[k] for k in ("id", "kind", "verdict", "wall_s")} | {"violations": r["violations"][:2]} for r in results],
         "broken": broken,
     }
+
+
+# ------------------------------------------------------------------------------ positive controls of the general lint pack
+_PROBE_REL = "hypergraphx/_verif_lint_probe.py"
+_PROBE_SRC = '''
+import numpy as np
+from itertools import groupby
+
+
+def stale(pairs, s):
+    out = []
+    seen = set()
+    for a, b in pairs:
+        if (a, b) not in seen:
+            seen.add((a, b))
+            w = len(set(a) & set(b))
+        if w >= s:
+            out.append((a, b))
+    return out
+
+
+def carried(xs):
+    out = []
+    for i, x in enumerate(xs):
+        if i > 0:
+            out.append(x - prev)
+        prev = x
+    return out
+
+
+def reuse(sizes, edges):
+    wanted = (s + 1 for s in sizes)
+    kept = []
+    for s in wanted:
+        kept.append(s)
+    return [e for e in edges if len(e) not in wanted]
+
+
+def reuse_exclusive(ids, table, order):
+    edges = (table[i] for i in ids)
+    return list(edges) if order is None else [e for e in edges if len(e) - 1 == order]
+
+
+def fancy(W, edges):
+    rows, cols = edges[:, 0].ravel(), edges[:, 1].ravel()
+    W[rows, cols] += 1
+    return W
+
+
+def grouped(table):
+    res = {}
+    records = list(table.items())
+    for t, grp in groupby(records, key=lambda r: r[0]):
+        res[t] = list(grp)
+    return res
+
+
+def runs(xs):
+    return sum(1 for _ in groupby(xs))
+
+
+def shared(nodes):
+    return dict.fromkeys(nodes, {})
+
+
+def liveiter(adj, node):
+    for e in adj[node]:
+        if e % 2:
+            adj[node].remove(e)
+    return adj
+
+
+def liveiter_break(adj, node, target):
+    for e in adj[node]:
+        if e == target:
+            adj[node].remove(e)
+            break
+    return adj
+
+
+def default_arg(x, acc=[]):
+    acc.append(x)
+    return acc
+
+
+def default_arg_ok(x, acc=None):
+    acc = [] if acc is None else acc
+    acc.append(x)
+    return acc
+'''
+
+_PROBE_EXPECT = {
+    # function -> (rule, must fire?)
+    "stale": ("G-STALE", True),
+    "carried": ("G-STALE", False),
+    "reuse": ("G-REUSE", True),
+    "reuse_exclusive": ("G-REUSE", False),
+    "fancy": ("N-FANCYAUG", True),
+    "grouped": ("G-GROUPBY", True),
+    "runs": ("G-GROUPBY", False),
+    "shared": ("E-SHARED", True),
+    "liveiter": ("G-LIVEITER", True),
+    "liveiter_break": ("G-LIVEITER", False),
+    "default_arg": ("E-DEFAULTARG", True),
+    "default_arg_ok": ("E-DEFAULTARG", False),
+}
+
+
+def lint_pack_controls(repo: str) -> dict:
+    """Every lint of the general pack fires on its tiny positive example and stays silent on the benign twin (the pack's
+    expected count on the repository is zero, so this is what shows it can match at all)."""
+    from . import lints as L
+    from .ctx import Ctx
+    from .effects import check_shared_literals
+    from .report import Result
+
+    fns = {"G-STALE": L.check_stale_in_loop, "G-REUSE": L.check_iterator_reuse, "N-FANCYAUG": L.check_fancy_augassign, "G-GROUPBY": L.check_groupby_sorted, "E-SHARED": check_shared_literals, "G-LIVEITER": L.check_mutation_while_iterating, "E-DEFAULTARG": L.check_mutable_defaults}
+    ctx = Ctx(repo, "quick", overrides={_PROBE_REL: _PROBE_SRC})
+    out = {"controls": [], "broken": []}
+    for name, (rule, must) in _PROBE_EXPECT.items():
+        fi = ctx.prog.func(f"_verif_lint_probe.{name}")
+        tmp = Result("LINT")
+        try:
+            fns[rule](ctx, tmp, fi)
+            fired = any(o.status == "violation" and o.rule == rule for o in tmp.obs)
+            err = None
+        except Exception as e:  # pragma: no cover
+            fired, err = False, f"{type(e).__name__}: {e}"
+        ok = (fired == must) and err is None
+        out["controls"].append({"function": name, "rule": rule, "expected": "fires" if must else "silent", "fired": fired, "ok": ok, "error": err})
+        if not ok:
+            out["broken"].append(f"lint control {name}: {rule} expected {'to fire' if must else 'to stay silent'}, fired={fired}" + (f" ({err})" if err else ""))
+    out["summary"] = f"{sum(1 for c in out['controls'] if c['ok'])}/{len(out['controls'])} lint-pack controls as expected"
+    return out
